@@ -257,8 +257,11 @@ static inline void relax(unsigned& n) {
   // the machine is shared: do not burn a time slice waiting for a descheduled thread
   if (++n > 256)
     sched_yield();
-  else
+  else {
+#if defined(__x86_64__) || defined(__i386__)
     __builtin_ia32_pause();
+#endif
+  }
 }
 
 static inline void spinFor(unsigned n) {
